@@ -15,16 +15,19 @@ U32, U64 = 2 ** 32, 2 ** 64
 def world():
     w = {'__bases__': {}}
     for cls in ('MovieFragmentHeaderBox', 'MovieExtendsHeaderBox', 'TrackExtendsBox', 'TrackFragmentDecodeTimeBox',
-                'TrackFragmentHeaderBox', 'TrackFragmentRunBox', 'TrackEncryptionBox', 'MediaHeaderBox', 'EventMessageBox', 'ContentProtectionSpecificBox', 'SegmentIndexBox'):
+                'TrackFragmentHeaderBox', 'TrackFragmentRunBox', 'TrackEncryptionBox', 'MediaHeaderBox', 'EventMessageBox', 'ContentProtectionSpecificBox', 'SegmentIndexBox',
+                'SampleAuxiliaryInformationSizesBox'):
         w['__bases__'][cls] = ['FullBox']
     w['ISO_EPOCH'] = DT(z3.IntVal(ISO_EPOCH_US))
-    for nm in ('creation_s', 'modification_s', 'default_kid', 'payload', 'system_id', 'kid0', 'kid1', 'kid2'):
+    for nm in ('creation_s', 'modification_s', 'default_kid', 'payload', 'system_id', 'kid0', 'kid1', 'kid2', 'sz0', 'sz1', 'sz2',
+               'aux_info_type', 'aux_info_type_parameter', 'default_sample_info_size'):
         w[nm] = z3.Int(nm)
     for k in range(2):
         for f in ('ref_type', 'ref_size', 'duration', 'starts_with_SAP', 'SAP_type', 'SAP_delta_time'):
             w[f'r{k}_{f}'] = z3.Int(f'r{k}_{f}')
     for nm in ('p0', 'fields_len', 'child0_size', 'child1_size', 'child2_size', 'pos0', 'total', 'size32', 'size64'):
         w[nm] = z3.Int(nm)
+    w['has_attr'] = lambda o, k: z3.BoolVal(k in o.f)
     w['stream_end'] = lambda st: st.end()
     w['at_end'] = lambda st: z3.BoolVal(st.cursor is None)
     w['size_field'] = lambda st, pos: st.value_at(pos) if st.value_at(pos) is not None else z3.IntVal(-1)
@@ -360,6 +363,73 @@ def sidx_contract(nrefs):
 
 SIDX = [sidx_contract(0), sidx_contract(1), sidx_contract(2)]
 
+# --- saiz (sizes of the per-sample auxiliary information): optional aux type, default size, per-sample table iff the default is 0
+def saiz_contract(k, default_zero):
+    def env(w, o):
+        o.f.update(aux_info_type=z3.Int('aux_info_type'), aux_info_type_parameter=z3.Int('aux_info_type_parameter'),
+                   default_sample_info_size=0 if default_zero else z3.Int('default_sample_info_size'),
+                   sample_count=z3.Int('sample_count'), sample_info_sizes=PyList([z3.Int(f'sz{j}') for j in range(k)]))
+    has_aux = '(old(self.flags) % 2 == 1)'
+    req = [u32('aux_info_type'), u32('aux_info_type_parameter'), u32('sample_count')] + \
+          [(f'sz{j}_u8', f'0 <= sz{j} and sz{j} < 256') for j in range(k)]
+    if not default_zero:
+        req.append(('default_size_u8', '1 <= self.default_sample_info_size and self.default_sample_info_size < 256'))
+    rt = ("result['version'] == old(self.version) and result['flags'] == old(self.flags) and "
+          f"(result['aux_info_type'] == old(self.aux_info_type) and result['aux_info_type_parameter'] == old(self.aux_info_type_parameter) "
+          f"if {has_aux} else True) and result['default_sample_info_size'] == old(self.default_sample_info_size) and ")
+    if default_zero:
+        rt += f"result['sample_count'] == {k} and length(result['sample_info_sizes']) == {k}" + \
+              ''.join(f" and result['sample_info_sizes'][{j}] == sz{j}" for j in range(k))
+    else:
+        rt += "result['sample_count'] == old(self.sample_count) and length(result['sample_info_sizes']) == 0"
+    c = box_contract('SampleAuxiliaryInformationSizesBox', [], req, version_values=(0,), extra_env=env, roundtrip=rt,
+                     size=f'4 + (8 if {has_aux} else 0) + 1 + 4 + {k if default_zero else 0}')
+    c.variant = f'SampleAuxiliaryInformationSizesBox+{k}sizes-{"table" if default_zero else "default"}'
+    c.props = ['C04', 'C03']
+    c.modifies = ['self.sample_count']
+    c.canaries = ["result['sample_count'] == 77"]
+    names = ['version', 'flags', 'aux_info_type', 'aux_info_type_parameter', 'sample_count'] + [f'sz{j}' for j in range(k)] + \
+            ([] if default_zero else ['default_sample_info_size'])
+    c.witness_terms = lambda w: (lambda ev: {n: ev(z3.Int(n)) for n in names})
+    return c
+
+
+# --- JSON form of saiz / saio: aux_info_type goes out as '0x..' text and must come back as the same number
+def aux_json_contract(cls, has_aux):
+    def env(w):
+        o = Obj(cls, {'_fields': PyList(['version', 'flags'] + (['aux_info_type'] if has_aux else [])), 'version': 0,
+                      'flags': 1 if has_aux else 0})
+        if has_aux:
+            o.f['aux_info_type'] = z3.Int('aux_info_type')
+        return {'self': o, 'exclude': Obj('Set', {})}
+
+    def super_to_json(eng, e, a, kw):
+        return {'version': 0, 'flags': 1 if has_aux else 0, '_type': 'dashlive.mpeg.mp4.' + cls}
+
+    def sequel_env(eng, env_after, value):
+        # the rebuilt box: a new object (its field registry is what ObjectWithFields.__init__ sets up - not under contract)
+        return {'self': Obj(cls, {'_fields': env_after['self'].f['_fields']}), 'kwargs': dict(value), 'exclude': env_after['exclude']}
+
+    def super_init(eng, e, a, kw):
+        eng.lookup('self').f.update(kw)
+    return Contract(
+        key=f'{MP4}:{cls}._to_json', variant='aux' if has_aux else 'no-aux', props=['C04'], env=env,
+        requires=[u32('aux_info_type')] if has_aux else [],
+        models={'super(FullBox, self)._to_json': super_to_json, 'exclude.add': lambda eng, e, a, kw: None,
+                'super().__init__': super_init},
+        sequel={'qual': f'{cls}.__init__', 'env': sequel_env},
+        ensures=[('aux_info_type_survives_json', 'self.aux_info_type == aux_info_type' if has_aux else "not has_attr(self, 'aux_info_type')"),
+                 ('other_fields_kept', 'self.version == 0 and self.flags == ' + ('1' if has_aux else '0'))],
+        canaries=['self.flags == 7'],
+        witness_terms=lambda w: (lambda ev: {'aux_info_type': ev(z3.Int('aux_info_type'))}),
+    )
+
+
+AUX_JSON = [aux_json_contract(c, a) for c in ('SampleAuxiliaryInformationSizesBox', 'SampleAuxiliaryInformationOffsetsBox')
+            for a in (True, False)]
+
+SAIZ = [saiz_contract(0, True), saiz_contract(1, True), saiz_contract(3, True), saiz_contract(2, False)]
+
 # --- trun with its sample table (k samples; every optional per-sample field governed by the trun flags)
 def trun_samples_contract(k, flags_value):
     SF = ('duration', 'size', 'flags', 'composition_time_offset')
@@ -417,7 +487,8 @@ TRUN_SAMPLES = [trun_samples_contract(2, f) for f in _trun_flag_sets()] + [trun_
 # inline helpers reached through self.encode_box_fields(dest)
 INLINE = [Contract(key=f'{MP4}:{cls}.encode_box_fields', props=[], inline=True)
           for cls in ('MovieFragmentHeaderBox', 'MovieExtendsHeaderBox', 'TrackExtendsBox', 'TrackFragmentDecodeTimeBox',
-                      'TrackFragmentHeaderBox', 'TrackFragmentRunBox', 'TrackEncryptionBox', 'MediaHeaderBox', 'EventMessageBox', 'ContentProtectionSpecificBox', 'SegmentIndexBox')] + \
+                      'TrackFragmentHeaderBox', 'TrackFragmentRunBox', 'TrackEncryptionBox', 'MediaHeaderBox', 'EventMessageBox', 'ContentProtectionSpecificBox', 'SegmentIndexBox',
+                      'SampleAuxiliaryInformationSizesBox')] + \
          [Contract(key=f'{MP4}:FullBox.parse', props=[], inline=True),
           Contract(key=f'{MP4}:TrackFragmentRunBox.output_box_fields', props=[], inline=True),
           Contract(key='dashlive/utils/binary.py:Binary.__len__', props=[], inline=True),
@@ -726,7 +797,7 @@ FIND_FIRST = Contract(key=f'{MP4}:SampleAuxiliaryInformationOffsetsBox.find_firs
 
 GROUP = Group(
     name='mp4', world=world,
-    contracts=[MFHD, MEHD, TREX, TFDT, TFHD, TRUN, TENC, MDHD] + EMSG + PSSH + SIDX + ENCODE + HEADER + TRUN_SAMPLES + [BTRT, PASP, TFDT_SETATTR, TRUN_POST_ENCODE] + SAIO + [FIND_FIRST] + INLINE,
+    contracts=[MFHD, MEHD, TREX, TFDT, TFHD, TRUN, TENC, MDHD] + EMSG + PSSH + SIDX + SAIZ + AUX_JSON + ENCODE + HEADER + TRUN_SAMPLES + [BTRT, PASP, TFDT_SETATTR, TRUN_POST_ENCODE] + SAIO + [FIND_FIRST] + INLINE,
     assumptions=[
         'C04: FieldWriter.__init__/write and FieldReader.__init__/read/get/skip (dashlive/utils/fio) are analysed as real code '
         '(inlined at every call, for the format codes the boxes under contract use); struct.pack / struct.unpack (stdlib) and '
